@@ -313,7 +313,9 @@ func runCase(rt *rapid.T) {
 					// while the beacon node has been answering at once: a resolution call that is under way
 					// during the event (slow node) may legitimately come back with the old answer. Reorg events
 					// are outside what the property quantifies over; this is the "never altered" clause only.
-					if claimed[s] && slowdowns == 0 && rapid.Bool().Draw(rt, "reorgChangesDuties") {
+					// (and only when the slot has not begun: a run may start inside its first slot, whose duties
+					// are then already on their way with the assignments of before the event)
+					if claimed[s] && slowdowns == 0 && time.Now().Before(slotStart) && rapid.Bool().Draw(rt, "reorgChangesDuties") {
 						versions = append(versions, tableVersion{fromSlot: lastChangeSlot, expect: buildExpect()})
 						lastChangeSlot = s
 						ep := eth2p0.Epoch(s / spe)
